@@ -622,7 +622,16 @@ impl Scenario for Hostile {
             }
         };
         let plan_kind = rs.below(20);
-        let seedimg = mk_seed(&mut r, plan_kind < 6);
+        let mut seedimg = mk_seed(&mut r, plan_kind < 6);
+        if plan_kind >= 2 && plan_kind < 6 {
+            // the ZIP64 end record and locator are among the structures whose fields get enumerated
+            if let SeedImg::Src(Source::Built(l)) = &mut seedimg {
+                if rs.chance(1, 2) {
+                    l.force_z64_end = true;
+                    l.trailing = 0;
+                }
+            }
+        }
         let img_len = seed_image(&seedimg).len() as u64;
         let plan = match plan_kind {
             0 | 1 => Plan::Prefixes { range: None },
@@ -771,8 +780,9 @@ impl Scenario for Hostile {
                     Err(_) => return Verdict::Skip("seed image has no end record at EOF".into()),
                 };
                 let (fields, _r) = fields_of(&img0, &p);
-                let mut all: Vec<(u64, u8, &'static str, u64)> = vec![];
-                for (pos, w, name) in fields {
+                // one lie = one or several fields set together (claims that vouch for each other)
+                let mut all: Vec<Vec<(u64, u8, &'static str, u64)>> = vec![];
+                for (pos, w, name) in fields.iter().copied() {
                     if pos + w as u64 > n0 {
                         continue;
                     }
@@ -780,18 +790,59 @@ impl Scenario for Hostile {
                     cur[..w as usize].copy_from_slice(&img0[pos as usize..pos as usize + w as usize]);
                     let cur = u64::from_le_bytes(cur);
                     for v in boundary_values(w, n0, cur) {
-                        all.push((pos, w, name, v));
+                        all.push(vec![(pos, w, name, v)]);
+                    }
+                }
+                // coordinated lies: a huge entry count together with a directory size that "covers" it, both
+                // sizes of one header, all three variable lengths of a central header, offset + size
+                let find = |name: &str| -> Vec<(u64, u8, &'static str)> { fields.iter().copied().filter(|(pos, w, n)| *n == name && pos + *w as u64 <= n0).collect() };
+                let first = |name: &str| find(name).into_iter().next();
+                if let (Some(nd), Some(n), Some(sz)) = (first("z.ndisk"), first("z.n"), first("z.cdsize")) {
+                    for cnt in [0x1_0000u64, 200_000, 3_000_000, 1 << 32, 1 << 56, u64::MAX / 46, u64::MAX] {
+                        for size in [cnt.saturating_mul(46), cnt.wrapping_mul(46), u64::MAX, cnt] {
+                            all.push(vec![(nd.0, nd.1, nd.2, cnt), (n.0, n.1, n.2, cnt), (sz.0, sz.1, sz.2, size)]);
+                        }
+                    }
+                    if let Some(off) = first("z.cdoff") {
+                        for (o, z) in [(u64::MAX, u64::MAX), (1 << 63, 1 << 63), (u64::MAX - n0, n0), (n0, u64::MAX - n0)] {
+                            all.push(vec![(off.0, off.1, off.2, o), (sz.0, sz.1, sz.2, z)]);
+                        }
+                    }
+                }
+                if let (Some(nd), Some(n), Some(sz)) = (first("e.ndisk"), first("e.n"), first("e.cdsize")) {
+                    for cnt in [1u64, 100, 1000, 0xfffe, 0xffff] {
+                        for size in [cnt * 46, 0, 0xffff_ffff, n0] {
+                            all.push(vec![(nd.0, nd.1, nd.2, cnt), (n.0, n.1, n.2, cnt), (sz.0, sz.1, sz.2, size)]);
+                        }
+                    }
+                }
+                for (a, b) in [("c.csize", "c.usize"), ("l.csize", "l.usize")] {
+                    for (x, y) in find(a).into_iter().zip(find(b).into_iter()) {
+                        for v in [0xffff_ffffu64, 0xffff_fffe, 0x7fff_ffff, n0, 0] {
+                            all.push(vec![(x.0, x.1, x.2, v), (y.0, y.1, y.2, v)]);
+                        }
+                    }
+                }
+                for ((x, y), z) in find("c.nlen").into_iter().zip(find("c.elen").into_iter()).zip(find("c.clen").into_iter()) {
+                    for v in [0xffffu64, 0x8000, 0] {
+                        all.push(vec![(x.0, x.1, x.2, v), (y.0, y.1, y.2, v), (z.0, z.1, z.2, v)]);
                     }
                 }
                 let (lo, hi) = range.unwrap_or((0, all.len() as u64));
                 let mut img = img0.clone();
                 for idx in lo..hi.min(all.len() as u64) {
-                    let (pos, w, name, v) = all[idx as usize];
-                    let save = img[pos as usize..pos as usize + w as usize].to_vec();
-                    apply_fault(&mut img, &ImgFault::SetField { pos, width: w, value: v });
-                    *ctx.fired.entry("SetField".into()).or_insert(0) += 1;
-                    let r = one(&img, format!("field {name} at {pos} set to {v:#x}"), ctx);
-                    img[pos as usize..pos as usize + w as usize].copy_from_slice(&save);
+                    let lie = &all[idx as usize];
+                    let saves: Vec<Vec<u8>> = lie.iter().map(|(pos, w, _, _)| img[*pos as usize..*pos as usize + *w as usize].to_vec()).collect();
+                    let mut what = String::new();
+                    for (pos, w, name, v) in lie {
+                        apply_fault(&mut img, &ImgFault::SetField { pos: *pos, width: *w, value: *v });
+                        what.push_str(&format!("field {name} at {pos} set to {v:#x}; "));
+                    }
+                    *ctx.fired.entry(if lie.len() > 1 { "SetFieldsTogether" } else { "SetField" }.into()).or_insert(0) += 1;
+                    let r = one(&img, what, ctx);
+                    for ((pos, w, _, _), save) in lie.iter().zip(saves.iter()).rev() {
+                        img[*pos as usize..*pos as usize + *w as usize].copy_from_slice(save);
+                    }
                     if let Err(v) = r {
                         return v;
                     }
